@@ -13,6 +13,9 @@ branch of that class consumes and where each key lands.  The module has grown be
   generic to_dict per attribute name (R-C13-1), _read_control_line on one line per kind token (-3a), Comparison.text and the
   mixing_model setter on every enum member (-3b, -5: exhaustive over that finite domain), 24 rule-action fixtures (-3g), one fixture
   dict per (class, key) for -6 and the single value 0.0 for -7.
+R-C13-9 (T3, sa/concrete): the patterns / curves / sources sections of from_dict interpreted on one fixture dictionary per value of each object's small
+emitted domain (incl. falsy values) against a recording mock model; R-C13-3h (T3+T1): io.to_dict interpreted on a mock model with three controls, the
+keys of each emitted entry compared with the keys the from_dict branch of that control type reads.
 R-C13-1, -3a and -3e fall back silently to a purely syntactic reading when the evaluator meets an unsupported construct, so which
 technique decided depends on the repository's shape.  R-C13-3 is only the family name of 3a..3g.
 """
@@ -2852,8 +2855,181 @@ def rule_options(repo, chk):
     chk.floor("R-C13-4", 100)
 
 
+# --------------------------------------------------------------------------- sections of the model dictionary, interpreted
+class _Rec(object):
+    """plain attribute bag handed to the interpreted from_dict / to_dict (a read of an attribute it lacks is `could not analyse`)"""
+    _sa_mock = True
+
+    def __init__(self, label, **kw):
+        self._label = label
+        self.__dict__.update(kw)
+
+    def __repr__(self):
+        return "<%s>" % self._label
+
+
+def _io_world(repo):
+    from ..concrete import World, stdlib_overrides
+    ov, _state = stdlib_overrides()
+    ov["wntr.__version__"] = "0.0"
+    return World(repo, ov)
+
+
+def rule_sections(repo, chk, fd):
+    """R-C13-9 (T3, bounded to the fixtures): the patterns / curves / sources sections of from_dict, run by the in-house interpreter on one dictionary per
+    section object with every value of its small emitted domain (incl. the falsy ones: wrap False, strength 0.0, pattern None), hand the add_* method /
+    the created object exactly the emitted values.
+    R-C13-3h (T3 + T1): the entries io.to_dict emits for the controls of a model (Control.to_dict per type, plus whatever io.to_dict adds, evaluated on a
+    mock model whose controls are registered under names unlike 'control N') carry only keys the from_dict branch of that type reads."""
+    from ..concrete import ProgramError
+    import collections
+    world = _io_world(repo)
+    fdc = world.function(NIO, "from_dict")
+    tdc = world.function(NIO, "to_dict")
+
+    def interp(what, thunk):
+        try:
+            return thunk()
+        except ProgramError as e:
+            if isinstance(e.exc, (AttributeError, NameError)):
+                raise ExtractError("%s needs something the mock model does not provide: %s (line %s)" % (what, e, e.lineno))
+            raise ExtractError("%s: the interpreted program raised %s (line %s)" % (what, e, e.lineno))
+
+    def recorder():
+        calls_, pats = [], {}
+
+        def add_pattern(name=None, pattern=None, *a, **k):
+            pats[name] = _Rec("pattern %s" % name, name=name, multipliers=pattern, wrap=True)      # Pattern's constructor default: wrap=True
+            calls_.append(("add_pattern", dict(name=name, pattern=pattern)))
+
+        def get_pattern(name):
+            return pats[name]
+
+        def add_curve(name=None, curve_type=None, xy_tuples_list=None, *a, **k):
+            calls_.append(("add_curve", dict(name=name, curve_type=curve_type, xy_tuples_list=xy_tuples_list)))
+
+        def add_source(name=None, node_name=None, source_type=None, quality=None, pattern=None, *a, **k):
+            calls_.append(("add_source", dict(name=name, node_name=node_name, source_type=source_type, quality=quality, pattern=pattern)))
+        wn = _Rec("model", add_pattern=add_pattern, get_pattern=get_pattern, add_curve=add_curve, add_source=add_source, name=None, _references=None,
+                  options=_Rec("options", __init__=lambda **k: None))
+        return wn, calls_, pats
+    # ---- patterns
+    pini = repo.func(ELEM, "Pattern.__init__")
+    dflt = {a.arg: const(d_) for a, d_ in zip(pini.args.args[len(pini.args.args) - len(pini.args.defaults):], pini.args.defaults)}
+    if dflt.get("wrap") is not True:
+        raise ExtractError("Pattern.__init__: default of wrap is no longer True (the recorder of R-C13-9 assumes it)")
+    n9 = 0
+    for label, entry, want in (("wrap False (the only value Pattern.to_dict writes)", {"name": "P1", "multipliers": [1.0, 0.5], "wrap": False}, False),
+                               ("wrap True", {"name": "P1", "multipliers": [1.0, 0.5], "wrap": True}, True),
+                               ("no wrap key (a wrapping pattern)", {"name": "P1", "multipliers": [1.0, 0.5]}, True)):
+        wn, calls_, pats = recorder()
+        interp("from_dict(patterns)", lambda: fdc({"patterns": [dict(entry)]}, append=wn))
+        got = pats["P1"].wrap if "P1" in pats else "pattern not added"
+        mult = pats["P1"].multipliers if "P1" in pats else None
+        n9 += 1
+        chk.expect(got is want and mult == entry["multipliers"], "R-C13-9", "from_dict restores a pattern with %s" % label, loc(fd),
+                   "Pattern.to_dict writes 'wrap' only when it is False; a from_dict that tests the value for truth (or skips the key) turns every non-wrapping pattern (binary_pattern, "
+                   "fire-fighting demand) into a repeating one", expected="wrap = %s, multipliers %s" % (want, entry["multipliers"]), found="wrap = %r, multipliers %r" % (got, mult))
+    # ---- curves
+    for ctype, pts in (("HEAD", [[0.0, 10.0], [1.0, 5.0]]), (None, [])):
+        wn, calls_, pats = recorder()
+        interp("from_dict(curves)", lambda: fdc({"curves": [{"name": "C1", "curve_type": ctype, "points": list(pts)}]}, append=wn))
+        got = [c for c in calls_ if c[0] == "add_curve"]
+        n9 += 1
+        chk.expect(len(got) == 1 and got[0][1] == dict(name="C1", curve_type=ctype, xy_tuples_list=pts), "R-C13-9", "from_dict restores a curve of type %s with %d point(s)" % (ctype, len(pts)), loc(fd),
+                   expected=dict(name="C1", curve_type=ctype, xy_tuples_list=pts), found=got)
+    # ---- sources
+    for strength, pat in ((1.5, "PAT"), (0.0, None)):
+        wn, calls_, pats = recorder()
+        interp("from_dict(sources)", lambda: fdc({"sources": [{"name": "S1", "node_name": "N1", "source_type": "MASS", "strength": strength, "pattern": pat}]}, append=wn))
+        got = [c for c in calls_ if c[0] == "add_source"]
+        exp = dict(name="S1", node_name="N1", source_type="MASS", quality=strength, pattern=pat)
+        n9 += 1
+        chk.expect(len(got) == 1 and got[0][1] == exp, "R-C13-9", "from_dict restores a source with strength %s and pattern %s" % (strength, pat), loc(fd), expected=exp, found=got)
+    chk.floor("R-C13-9", 7)
+
+    # ---- R-C13-3h controls: keys emitted per type by io.to_dict vs keys read by the branch of that type
+    ctd = None
+    for cname in ("Control", "ControlBase", "Rule"):
+        if repo.has_func(CTRL, cname + ".to_dict"):
+            ctd = repo.func(CTRL, cname + ".to_dict")
+            break
+    if ctd is None:
+        raise AnchorError("control to_dict not found")
+    templates = [d_ for d_ in returned_dicts(ctd) if isinstance(d_.get("type"), str)]
+    if not templates:
+        raise ExtractError("Control.to_dict: the dictionaries it returns could not be derived")
+    ctrl_loop = None
+    for n in walk(fd):
+        if isinstance(n, ast.For) and isinstance(n.iter, ast.Subscript) and const(n.iter.slice) == "controls" and isinstance(n.target, ast.Name):
+            ctrl_loop = n
+    if ctrl_loop is None:
+        raise AnchorError("from_dict: loop over d['controls'] not found")
+    var = ctrl_loop.target.id
+    disc = {s_.targets[0].id for s_ in ctrl_loop.body if isinstance(s_, ast.Assign) and len(s_.targets) == 1 and isinstance(s_.targets[0], ast.Name) and "type" in keys_of(s_.value, var)}
+
+    def type_of_test(t):
+        """'simple' for tests like ctrl_type.lower() == 'simple' / control['type'] == 'simple' (either operand order)"""
+        if isinstance(t, ast.Compare) and len(t.ops) == 1 and isinstance(t.ops[0], ast.Eq):
+            for a_, b_ in ((t.left, t.comparators[0]), (t.comparators[0], t.left)):
+                if isinstance(const(b_), str):
+                    e = a_
+                    while isinstance(e, ast.Call) and isinstance(e.func, ast.Attribute) and e.func.attr in ("lower", "upper", "strip") and not e.args:
+                        e = e.func.value
+                    if (isinstance(e, ast.Name) and e.id in disc) or "type" in keys_of(e, var):
+                        return const(b_).lower()
+        return None
+    branch_reads, common = {}, set()
+    for s_ in ctrl_loop.body:
+        cur, matched = s_, False
+        while isinstance(cur, ast.If):
+            ty = type_of_test(cur.test)
+            if ty is None:
+                break
+            matched = True
+            branch_reads.setdefault(ty, set()).update(keys_of(ast.Module(body=cur.body, type_ignores=[]), var))
+            cur = cur.orelse[0] if (len(cur.orelse) == 1 and isinstance(cur.orelse[0], ast.If)) else None
+        if not matched:
+            common |= keys_of(s_, var)
+    if not branch_reads:
+        raise ExtractError("from_dict: dispatch on the control type not found in the controls loop")
+
+    class Ctl(_Rec):
+        def __init__(self, d_):
+            _Rec.__init__(self, "control")
+            self._d = d_
+
+        def to_dict(self):
+            return dict(self._d)
+    reg = lambda: _Rec("registry", to_list=lambda: [])
+    fixtures = collections.OrderedDict()
+    for i, tpl in enumerate(templates):
+        d_ = {k: ("R%d" % i if k == "name" else (tpl[k] if isinstance(tpl[k], (str, int, float)) else "x")) for k in tpl if isinstance(k, str)}
+        fixtures["user name %d" % i] = Ctl(d_)
+        if "name" in d_:
+            d2 = dict(d_)
+            d2["name"] = ""
+            fixtures["user name %d (unnamed)" % i] = Ctl(d2)
+    wn = _Rec("model", _controls=fixtures, name="n", _references=[], _options=_Rec("options", to_dict=lambda: {}), _curve_reg=reg(), _pattern_reg=reg(),
+              _node_reg=reg(), _link_reg=reg(), _sources=reg())
+    out = interp("to_dict", lambda: tdc(wn))
+    ents = out.get("controls") if isinstance(out, dict) else None
+    if not isinstance(ents, list) or len(ents) != len(fixtures):
+        raise ExtractError("io.to_dict: the controls section is not one entry per control (%r)" % (ents,))
+    for (regname, ctl), ent in zip(fixtures.items(), ents):
+        ty = str(ent.get("type", "?")).lower()
+        reads = branch_reads.get(ty, set()) | common
+        extra = sorted(k for k in ent if k not in reads)
+        chk.expect(not extra, "R-C13-3h", "every key io.to_dict writes for a %s control%s is read by the %r branch of from_dict" % (ty, " registered without a name of its own" if "unnamed" in regname else "", ty), loc(fd, ctrl_loop),
+                   "a key the serializer writes and the de-serializer of that control type does not read cannot survive: the dictionary of the re-created model differs in it (simple controls are "
+                   "re-numbered 'control N' by from_dict, so a name written for them is lost)", expected="keys within %s" % sorted(reads), found="not read: %s (entry %s)" % (extra, sorted(ent)))
+    chk.floor("R-C13-3h", 3)
+    chk.sample({"rule": "R-C13-3h", "control_keys_read_per_type": {k: sorted(v) for k, v in branch_reads.items()}, "common": sorted(common), "emitted": [sorted(e) for e in ents]})
+
+
 def run(repo, chk):
     ct, fd, emits = rule_keys(repo, chk)
+    rule_sections(repo, chk, fd)
     rule_values(repo, chk, ct, fd, emits)
     rule_explicit(repo, chk, fd)
     rule_json_shapes(repo, chk, ct, fd)
@@ -2866,6 +3042,13 @@ def run(repo, chk):
 
 
 WITNESSES = [
+    dict(name="pattern-wrap-restored-only-when-true", file=NIO, old='            wn.get_pattern(pattern["name"]).wrap = pattern.setdefault("wrap", True)\n',
+         new='            if pattern.get("wrap"):\n                wn.get_pattern(pattern["name"]).wrap = pattern["wrap"]\n', rule="R-C13-9"),
+    dict(name="quiet-pattern-wrap-through-local", file=NIO, silent=True, old='            wn.get_pattern(pattern["name"]).wrap = pattern.setdefault("wrap", True)\n',
+         new='            wrap = pattern.get("wrap", True)\n            restored = wn.get_pattern(pattern["name"])\n            restored.wrap = wrap\n'),
+    dict(name="source-strength-dropped-when-zero", file=NIO, old='                quality=source["strength"],\n', new='                quality=source["strength"] or 1.0,\n', rule="R-C13-9"),
+    dict(name="simple-controls-written-with-their-registry-name", file=NIO, old='        if "name" in cc.keys() and not cc["name"]:\n', new='        if not cc.get("name"):\n', rule="R-C13-3h"),
+    dict(name="quiet-unnamed-rule-test-without-keys-call", file=NIO, silent=True, old='        if "name" in cc.keys() and not cc["name"]:\n', new='        if "name" in cc and cc["name"] in ("", None):\n'),
     dict(name="drop-pipe-wall-coeff", file=NIO, old='                p.wall_coeff = link.setdefault("wall_coeff")\n', new="", rule="R-C13-1"),
     dict(name="land-in-wrong-attribute", file=NIO, old='j.minimum_pressure = node.setdefault("minimum_pressure")',
          new='j.required_pressure = node.setdefault("minimum_pressure")', rule="R-C13-1"),
